@@ -10,6 +10,7 @@
 (*         "listiter"  iter(list)           "rangeiter"  iter(range(n))                        *)
 (*   items the values delivered, in order, before the producer ends                             *)
 (*   end   "cls"  raise StopIteration        "inst" raise StopIteration()      (class)          *)
+(*         "instv" raise StopIteration(9)  (class): the value a delegating yield from evaluates to *)
 (*         "fall" falls off the end          "ret"  return 9                  (generators)     *)
 (*         "err"  raise KeyError at that position (i.e. after Len(items) deliveries)            *)
 (*         "errE" / "errB"  raise Exception / BaseException there: the ANCESTORS of             *)
@@ -47,7 +48,7 @@ Prod(kind, items, end) == [kind |-> kind, items |-> items, end |-> end]
 ErrEnds == {"err", "errE", "errB"}
 ErrClass(end) == CASE end = "err" -> "KeyError" [] end = "errE" -> "Exception" [] end = "errB" -> "BaseException"
 Producers ==
-   { Prod("class", it, e) : it \in ItemSeqs, e \in {"cls", "inst"} \cup ErrEnds }
+   { Prod("class", it, e) : it \in ItemSeqs, e \in {"cls", "inst", "instv"} \cup ErrEnds }
    \cup { Prod(kd, it, e) : kd \in {"gen", "able"}, it \in ItemSeqs, e \in {"fall", "ret"} \cup ErrEnds }
    \cup { Prod("listiter", it, "fall") : it \in ItemSeqs }
    \cup { Prod("rangeiter", [i \in 1..k |-> i - 1], "fall") : k \in 0..MaxLen }
@@ -121,6 +122,12 @@ C_enumerate == Is("enumerate") /\ Drain(REnum)
 C_join     == Is("join")     /\ Drain(RJoin)      \* ",".join(str(x) for x in p)
 C_joinmap  == Is("joinmap")  /\ Drain(RJoin)      \* ",".join(map(str, p))
 C_star     == Is("star")     /\ Drain(RStar)      \* a, *b = p
+\* def d(): r = yield from p; yield [r]   consumed by list(d()): the items, then the VALUE of the yield from - what the
+\* StopIteration that ended p carried (a generator's return value, the argument of a StopIteration raised by a user
+\* iterator), None if it carried nothing; whoever raised it and through whatever Python code it travelled
+EndVal(q) == IF q.end \in {"ret", "instv"} THEN VInt(9) ELSE VNone
+RYfv(a)    == OVal(VList(Ints(a) \o << VList(<< EndVal(cs.p) >>) >>))
+C_yfv      == Is("yfv")      /\ Drain(RYfv)
 
 \* consumers that stop early
 C_any == Is("any") /\ CASE Pulled.t = "item" -> (IF Pulled.v # 0 THEN Finish(OVal(VBool(TRUE))) ELSE Continue(acc))
@@ -152,9 +159,9 @@ C_nextd == Is("nextd") /\
 
 Consume == \/ C_for \/ C_listcomp \/ C_setcomp \/ C_dictcomp \/ C_genexp \/ C_starcall \/ C_list \/ C_tuple \/ C_set
            \/ C_sum \/ C_min \/ C_max \/ C_sorted \/ C_zip \/ C_map \/ C_filter \/ C_enumerate \/ C_join \/ C_joinmap
-           \/ C_star \/ C_any \/ C_all \/ C_in \/ C_unpack2 \/ C_zip2 \/ C_nextd
+           \/ C_star \/ C_yfv \/ C_any \/ C_all \/ C_in \/ C_unpack2 \/ C_zip2 \/ C_nextd
 AllConsumers == {"for", "listcomp", "setcomp", "dictcomp", "genexp", "starcall", "list", "tuple", "set", "sum", "min", "max",
-                 "sorted", "zip", "map", "filter", "enumerate", "join", "joinmap", "star", "any", "all", "in", "unpack2",
+                 "sorted", "zip", "map", "filter", "enumerate", "join", "joinmap", "star", "yfv", "any", "all", "in", "unpack2",
                  "zip2", "nextd"}
 Next == Create \/ Consume
 Spec == Init /\ [][Next]_vars
@@ -174,6 +181,7 @@ Decl(c, p) ==
      [] c = "sorted" -> Whole(p, RSorted) [] c = "zip" -> Whole(p, RZip) [] c = "map" -> Whole(p, RMap)
      [] c = "filter" -> Whole(p, RFilter) [] c = "enumerate" -> Whole(p, REnum)
      [] c \in {"join", "joinmap"} -> Whole(p, RJoin)
+     [] c = "yfv" -> Whole(p, LAMBDA a : OVal(VList(Ints(a) \o << VList(<< EndVal(p) >>) >>)))
      [] c = "star" -> IF len = 0 THEN [out |-> IF Fails(p) THEN OExc(ErrClass(p.end)) ELSE OExc("ValueError"), pulls |-> 1]
                       ELSE Whole(p, RStar)
      [] c = "any" -> Early(p, LAMBDA x : x # 0, TRUE, FALSE)
